@@ -502,17 +502,23 @@ world logger-world {
 ];
 
 fn names_of(bytes: &[u8]) -> (Vec<String>, Vec<String>) {
-    let mut types = wac_types::Types::default();
-    match wac_types::Package::from_bytes("probe:p", None, bytes.to_vec(), &mut types) {
-        Ok(p) => {
-            let w = &types[p.ty()];
-            (
-                w.imports.keys().cloned().collect(),
-                w.exports.keys().cloned().collect(),
-            )
+    // The code under test must not be able to take the harness down while the corpus is
+    // built: a panic here only costs the name lists (the checks will find the panic).
+    let bytes = bytes.to_vec();
+    std::panic::catch_unwind(move || {
+        let mut types = wac_types::Types::default();
+        match wac_types::Package::from_bytes("probe:p", None, bytes, &mut types) {
+            Ok(p) => {
+                let w = &types[p.ty()];
+                (
+                    w.imports.keys().cloned().collect(),
+                    w.exports.keys().cloned().collect(),
+                )
+            }
+            Err(_) => (Vec::new(), Vec::new()),
         }
-        Err(_) => (Vec::new(), Vec::new()),
-    }
+    })
+    .unwrap_or_default()
 }
 
 static LIB: OnceLock<Vec<Pkg>> = OnceLock::new();
